@@ -26,7 +26,7 @@ def MayModify (S : List Spec) (n p : String) : Prop :=
 structure AssignOk (C : ClassInfo) (S : List Spec) (pre : Pre) : Prop where
   names : (S.map (·.name)).Nodup
   ex : ∃ ns ms, normalPass C.finals (normalOf S) ⟨[], []⟩ = .ok ns ∧
-        modPass (modsOf S) ⟨ns.props, []⟩ = .ok ms ∧
+        modPass C.finals (modsOf S) ⟨ns.props, []⟩ = .ok ms ∧
         pre = ⟨(addDefaults ms.props C.defaults (ms.props.map (fun e => (e.1, e.2.1))) []).1, ms.modifying,
                userNodes S ++ (addDefaults ms.props C.defaults (ms.props.map (fun e => (e.1, e.2.1))) []).2⟩
 
@@ -55,7 +55,7 @@ theorem modsOf_mod (S : List Spec) : ∀ s ∈ modsOf S, s.modifying = true := b
 /-- after both passes the shared invariant holds for all candidates -/
 theorem passes_inv {C : ClassInfo} {S : List Spec} {ns : NState} {ms : MState}
     (hn : normalPass C.finals (normalOf S) ⟨[], []⟩ = .ok ns)
-    (hm : modPass (modsOf S) ⟨ns.props, []⟩ = .ok ms) :
+    (hm : modPass C.finals (modsOf S) ⟨ns.props, []⟩ = .ok ms) :
     MInv (MayModify S) (allCands S) ms := by
   have h1 := normalPass_ok (normalOf S) (normalOf_normal S) (NInvF_nil C.finals) hn
   simp only [List.nil_append] at h1
@@ -176,12 +176,13 @@ theorem get_of_mem_nodup {α β} [DecidableEq α] {m : List (α × β)} {k : α}
       simp only [this, if_false]
       exact ih hnd.2 h1
 
-theorem modPass_keys_nodup (L : List Spec) : ∀ {st st' : MState}, (st.modifying.map (·.1)).Nodup →
-    modPass L st = .ok st' → (st'.modifying.map (·.1)).Nodup := by
+theorem modPass_keys_nodup {finals : List String} (L : List Spec) : ∀ {st st' : MState}, (st.modifying.map (·.1)).Nodup →
+    modPass finals L st = .ok st' → (st'.modifying.map (·.1)).Nodup := by
   have hstep : ∀ {s : Spec} {st st' : MState} {pk : String × Nat}, (st.modifying.map (·.1)).Nodup →
-      stepMod s st pk = .ok st' → (st'.modifying.map (·.1)).Nodup := by
+      stepMod finals s st pk = .ok st' → (st'.modifying.map (·.1)).Nodup := by
     intro s st st' pk hnd h
-    unfold stepMod at h
+    replace h := (stepMod_ok_core h).2
+    unfold stepModCore at h
     split at h
     · split at h
       · cases h; exact hnd
@@ -192,7 +193,7 @@ theorem modPass_keys_nodup (L : List Spec) : ∀ {st st' : MState}, (st.modifyin
         · cases h; exact hnd
     · cases h; exact hnd
   have hsteps : ∀ {s : Spec} (prs : List (String × Nat)) {st st' : MState}, (st.modifying.map (·.1)).Nodup →
-      stepsMod s prs st = .ok st' → (st'.modifying.map (·.1)).Nodup := by
+      stepsMod finals s prs st = .ok st' → (st'.modifying.map (·.1)).Nodup := by
     intro s prs
     induction prs with
     | nil => intro st st' hnd h; simp only [stepsMod] at h; cases h; exact hnd
